@@ -161,6 +161,32 @@ Proof.
   destruct (G >? D); destruct (G' >? D'); lia.
 Qed.
 
+(* distinct candidate-priority couples get distinct pair priorities (31-bit range): the check-list order is
+   total on pairs with distinct (G, D), and each side can recover (G, D) from the pair priority alone *)
+Lemma pair_formula_injective G D G' D' :
+  u31 G -> u31 D -> u31 G' -> u31 D' ->
+  pair_formula G D = pair_formula G' D' -> G = G' /\ D = D'.
+Proof.
+  unfold u31, pair_formula. change (2 ^ 32) with 4294967296. intros HG HD HG' HD' E.
+  destruct (G >? D) eqn:E1; destruct (G' >? D') eqn:E2; lia.
+Qed.
+
+(* outside the 31-bit range the RFC formula itself collides (2*max + 1 reaches 2^32) *)
+Lemma pair_formula_not_injective_u32 :
+  exists G D G' D', u32 G /\ u32 D /\ u32 G' /\ u32 D' /\ (G, D) <> (G', D') /\
+    pair_formula G D = pair_formula G' D'.
+Proof.
+  exists 1, 1, 0, 2147483649. unfold u32. repeat split; try lia; try discriminate.
+Qed.
+
+(* the tie-break bit: swapping the two sides of an unequal couple changes the value by exactly one *)
+Lemma pair_formula_swap G D : G <> D ->
+  pair_formula G D = pair_formula D G + (if G >? D then 1 else -1).
+Proof.
+  unfold pair_formula. change (2 ^ 32) with 4294967296. intros NE.
+  destruct (G >? D) eqn:E1; destruct (D >? G) eqn:E2; lia.
+Qed.
+
 (** ---- check list ordering ---- *)
 Lemma cmp_le0 a b : (cmp a b <=? 0) = (prio a >=? prio b).
 Proof.
